@@ -67,6 +67,40 @@ def setup():
     # Parser <-> its coroutine form a cycle with __del__; collecting it at a
     # random moment would close a generator mid-run.  We collect between runs.
     gc.disable()
+    # locks that lomond creates while it is being imported must be seen by
+    # the simulator as well (see world.LazyLock)
+    import threading
+    from . import world
+    if 'lomond' not in sys.modules:
+        # everything else lomond imports is loaded first, with the real module
+        import platform
+        import subprocess     # noqa
+        import select         # noqa
+        import socket         # noqa
+        import ssl            # noqa
+        import zlib           # noqa
+        import json           # noqa
+        import six            # noqa
+        import six.moves.urllib.parse   # noqa
+        platform.platform()
+        before = set(sys.modules)
+        sys.modules['threading'] = world.threading_proxy()
+        try:
+            import lomond  # noqa
+            import pkgutil
+            import importlib
+            for mi in pkgutil.iter_modules(lomond.__path__):
+                try:
+                    importlib.import_module('lomond.' + mi.name)
+                except Exception:
+                    pass
+        finally:
+            sys.modules['threading'] = threading
+        for name in set(sys.modules) - before:
+            m = sys.modules.get(name)
+            if m is not None and not name.startswith('lomond') and getattr(
+                    getattr(m, 'threading', None), '_verif_proxy', False):
+                m.threading = threading
     import lomond  # noqa
     import lomond.utf8validator as u8
     mod = getattr(u8.Utf8Validator, '__module__', '')
